@@ -19,11 +19,12 @@
      - delete of a name that is not stored raises KeyError before anything is saved.
      - save: [mkdir if the directory is missing]; open "<file>.tmp" truncating; one
        write per chunk json.dump produces; close; os.replace(tmp, file).
-   Abstractions: strings are lists of code points restricted (by the well-formedness
-   predicates used in the theorems) to printable ASCII without the double quote and
-   the backslash, so that JSON needs no escapes; the JSON reader [parse] accepts
-   objects, such strings, integers, true and false (what the store writes), not
-   floats, null, arrays or escapes.  The file system is three cells: does the
+   Abstractions: strings are lists of code points; the printer escapes them as
+   json.dump(ensure_ascii=True) does and the reader [parse] undoes every JSON string
+   escape (the well-formedness predicate of the theorems only excludes surrogate code
+   points); [parse] accepts objects, strings, integers, true and false (what the store
+   writes), not floats, null or arrays; file contents are lists of characters (the
+   store's own files are pure ASCII, so characters are bytes).  The file system is three cells: does the
    directory exist, content of the file, content of its ".tmp" sibling. *)
 From Coq Require Import String Ascii.
 From Coq Require Import ZArith List Bool Decimal.
@@ -52,10 +53,11 @@ Fixpoint str_ltb (a b : str) : bool :=
   | x :: a', y :: b' => if Z.ltb x y then true else if Z.eqb x y then str_ltb a' b' else false
   end.
 
-(* characters json.dump writes unescaped inside a string *)
-Definition safe (c : Z) : bool :=
-  (32 <=? c) && (c <=? 126) && negb (c =? 34) && negb (c =? 92).
-Definition str_ok (s : str) : bool := forallb safe s.
+(* a Python str that survives the JSON round trip: Unicode scalar values (no surrogate
+   code points: json.load would join an adjacent high/low pair into one character) *)
+Definition cp_ok (c : Z) : bool :=
+  (0 <=? c) && (c <? 1114112) && negb ((55296 <=? c) && (c <? 57344)).
+Definition str_ok (s : str) : bool := forallb cp_ok s.
 
 (* ------------------------------------------------------------------ dicts as sorted association lists *)
 Fixpoint lookup {A : Type} (k : str) (l : list (str * A)) : option A :=
@@ -270,10 +272,13 @@ Inductive out :=
 Definition entries {A : Type} (k : str) (l : list (str * list A)) : list A :=
   match lookup k l with Some m => m | None => [] end.
 
+(* `len(db) == 1` in load *)
+Definition ADOPT_COUNT : nat := 1.
+
 (* JsonKeyStore.load: the namespace this handle works on *)
 Definition resolve (d : db) (h : str) : str :=
   if has h d then h
-  else if str_eqb h DEFAULT_NAMESPACE && (Nat.eqb (List.length d) 1)
+  else if str_eqb h DEFAULT_NAMESPACE && (Nat.eqb (List.length d) ADOPT_COUNT)
        then match d with (ns, _) :: _ => ns | [] => h end
        else h.
 
@@ -310,8 +315,29 @@ Definition a_step (d : db) (h : str) (o : op) : db * out :=
 Definition view (d : db) (h : str) : kmap := entries (resolve d h) d.
 
 (* ------------------------------------------------------------------ json.dump(db, sort_keys=True, indent=4) *)
-Definition nl (i : nat) : str := 10 :: repeat 32 (4 * i).
-Definition quote (s : str) : str := 34 :: s ++ [34].
+(* json.dump(..., indent=4) *)
+Definition INDENT : nat := 4.
+Definition nl (i : nat) : str := 10 :: repeat 32 (INDENT * i).
+
+(* json.dumps(str) with ensure_ascii=True (json.encoder.py_encode_basestring_ascii):
+   the two-character escapes, printable ASCII as is, \uXXXX (lower-case hex) for everything
+   else, a UTF-16 surrogate pair of escapes above U+FFFF *)
+Definition hex4 (n : Z) : str :=
+  [hex_digit (n / 4096); hex_digit ((n / 256) mod 16); hex_digit ((n / 16) mod 16); hex_digit (n mod 16)].
+Definition uesc (n : Z) : str := 92 :: 117 :: hex4 n.
+Definition esc_char (c : Z) : str :=
+  if c =? 34 then [92; 34]
+  else if c =? 92 then [92; 92]
+  else if c =? 10 then [92; 110]
+  else if c =? 13 then [92; 114]
+  else if c =? 9 then [92; 116]
+  else if c =? 8 then [92; 98]
+  else if c =? 12 then [92; 102]
+  else if (32 <=? c) && (c <=? 126) then [c]
+  else if c <? 65536 then uesc c
+  else uesc (55296 + (c - 65536) / 1024) ++ uesc (56320 + (c - 65536) mod 1024).
+Definition esc_str (s : str) : str := flat_map esc_char s.
+Definition quote (s : str) : str := 34 :: esc_str s ++ [34].
 
 Fixpoint uint_chars (u : uint) : str :=
   match u with
@@ -389,6 +415,20 @@ Definition num_tok (neg : bool) (acc : str) : option token :=
 Definition pre (ts : list token) (r : option (list token)) : option (list token) :=
   match r with Some l => Some (ts ++ l) | None => None end.
 
+(* int(s[pos+1:pos+5], 16) of json.decoder._decode_uXXXX *)
+Definition hex4_val (h1 h2 h3 h4 : Z) : option Z :=
+  match hex_val h1, hex_val h2, hex_val h3, hex_val h4 with
+  | Some a, Some b, Some c, Some d => Some (4096 * a + 256 * b + 16 * c + d)
+  | _, _, _, _ => None
+  end.
+Definition is_high (n : Z) : bool := (55296 <=? n) && (n <=? 56319).
+Definition is_low (n : Z) : bool := (56320 <=? n) && (n <=? 57343).
+(* json.decoder.BACKSLASH *)
+Definition simple_escape (e : Z) : option Z :=
+  if e =? 34 then Some 34 else if e =? 92 then Some 92 else if e =? 47 then Some 47
+  else if e =? 98 then Some 8 else if e =? 102 then Some 12 else if e =? 110 then Some 10
+  else if e =? 114 then Some 13 else if e =? 116 then Some 9 else None.
+
 Fixpoint lex (m : lmode) (bs : str) {struct bs} : option (list token) :=
   match bs with
   | [] =>
@@ -423,9 +463,43 @@ Fixpoint lex (m : lmode) (bs : str) {struct bs} : option (list token) :=
         else None in
       match m with
       | LIdle => idle
-      | LStr acc =>
+      | LStr acc =>                      (* json.decoder.py_scanstring, strict *)
           if c =? 34 then pre [TStr (List.rev acc)] (lex LIdle r)
-          else if safe c then lex (LStr (c :: acc)) r
+          else if c =? 92 then
+            match r with
+            | e :: r1 =>
+                if e =? 117 then
+                  match r1 with
+                  | h1 :: h2 :: h3 :: h4 :: r2 =>
+                      match hex4_val h1 h2 h3 h4 with
+                      | Some n =>
+                          let plain := lex (LStr (n :: acc)) r2 in
+                          if is_high n then
+                            match r2 with
+                            | b1 :: b2 :: l1 :: l2 :: l3 :: l4 :: r3 =>
+                                if (b1 =? 92) && (b2 =? 117) then
+                                  match hex4_val l1 l2 l3 l4 with
+                                  | Some m =>
+                                      if is_low m
+                                      then lex (LStr (65536 + (n - 55296) * 1024 + (m - 56320) :: acc)) r3
+                                      else plain
+                                  | None => plain
+                                  end
+                                else plain
+                            | _ => plain
+                            end
+                          else plain
+                      | None => None
+                      end
+                  | _ => None
+                  end
+                else match simple_escape e with
+                     | Some x => lex (LStr (x :: acc)) r1
+                     | None => None
+                     end
+            | [] => None
+            end
+          else if 32 <=? c then lex (LStr (c :: acc)) r
           else None
       | LNum neg acc =>
           if is_digit c then lex (LNum neg (c :: acc)) r
@@ -739,3 +813,97 @@ Fixpoint c_trace (f : fs) (l : list (item * list (nat * nat)))
 Definition nats (l : list Z) : list nat := map Z.to_nat l.
 Definition nat_pairs (l : list (Z * Z)) : list (nat * nat) :=
   map (fun p => (Z.to_nat (fst p), Z.to_nat (snd p))) l.
+
+(* ------------------------------------------------------------------ KeyStore.get_resolving_keys, JsonKeyStore.from_device *)
+Definition RANDOM_DEVICE_ADDRESS : Z := 1.
+
+(* the (irk value, name, address type) triples handed to hci.Address, from get_all's result *)
+Fixpoint resolving_keys (l : list (str * pkeys)) : list (list Z * str * Z) :=
+  match l with
+  | [] => []
+  | (name, k) :: r =>
+      match irk k with
+      | Some key =>
+          (k_value key, name, match address_type k with Some t => t | None => RANDOM_DEVICE_ADDRESS end)
+          :: resolving_keys r
+      | None => resolving_keys r
+      end
+  end.
+
+Definition resolving_of (x : out) : option (list (list Z * str * Z)) :=
+  match x with OAll l => Some (resolving_keys l) | _ => None end.
+
+(* from_device: namespace from the device addresses (pub_any: the public address is one of
+   Address.ANY / ANY_RANDOM; rnd_any: the random address is ANY_RANDOM) *)
+Definition from_device_ns (pub_any : bool) (pub : str) (rnd_any : bool) (rnd : str) : str :=
+  if negb pub_any then pub else if negb rnd_any then rnd else DEFAULT_NAMESPACE.
+
+(* device.config.keystore.split(':', 1)[1:] -> the filename parameter, if any *)
+Fixpoint after_colon (cfg : str) : option str :=
+  match cfg with
+  | [] => None
+  | c :: r => if c =? 58 then Some r else after_colon r
+  end.
+(* `if not filename`: an explicit filename wins, an empty parameter counts as none *)
+Definition from_device_filename (explicit : option str) (cfg : option str) : option str :=
+  let nonempty o := match o with Some [] => None | x => x end in
+  match nonempty explicit with
+  | Some f => Some f
+  | None => match cfg with Some c => nonempty (after_colon c) | None => None end
+  end.
+
+(* ------------------------------------------------------------------ the shape of the code, for the source translator
+   (tools/translate/c15_source.py regenerates Gen/C15Source.v from keys.py on every run;
+   Props/C15.v compares) *)
+Definition fval_kind (v : fval) : Z := match v with FvInt _ => 0 | FvKey _ => 1 end.
+Definition full_key : pkey := mkKey [171] true (Some 7) (Some [205]).
+Definition min_key : pkey := mkKey [171] false None None.
+Definition full_keys : pkeys :=
+  mkKeys (Some 1) (Some full_key) (Some full_key) (Some full_key) (Some full_key) (Some full_key)
+         (Some full_key) (Some 2).
+(* members PairingKeys.to_dict writes: (name, 0 plain value / 1 key object), sorted by name *)
+Definition to_dict_shape : list (str * Z) := map (fun m => (fst m, fval_kind (snd m))) (to_dict full_keys).
+(* members Key.to_dict writes: (name, (always written, hex string)), sorted by name *)
+Definition key_to_dict_shape : list (str * (bool * bool)) :=
+  map (fun m => (fst m, (has (fst m) (key_to_dict min_key),
+                          match snd m with KStr _ => true | _ => false end))) (key_to_dict full_key).
+(* the members from_dict / Key.from_dict read back: exactly those written *)
+Definition from_dict_reads_all : bool :=
+  match from_dict (to_dict full_keys) with
+  | Some k => match ltk k, address_type k, link_key_type k with
+              | Some x, Some 1, Some 2 =>
+                  str_eqb (k_value x) [171] && k_auth x
+                  && match k_ediv x, k_rand x with Some 7, Some [205] => true | _, _ => false end
+              | _, _, _ => false
+              end
+  | None => false
+  end.
+Definition key_auth_default : option bool :=
+  option_map k_auth (key_from_dict [(F_value, KStr [])]).
+
+(* sort (name, x) pairs by name *)
+Definition sort_by_name {A : Type} (l : list (str * A)) : list (str * A) :=
+  fold_right (fun m acc => ins (fst m) (snd m) acc) [] l.
+
+(* step kinds of save when the directory is missing: guarded mkdir, open tmp 'w', write,
+   close (end of with), os.replace(tmp, file) *)
+Definition save_shape : list Z :=
+  map (fun st => fst (step_code st)) (save_steps (mkFs false None None) [] []).
+
+(* load: (condition, result) of each return, in order.
+   conditions: 1 `self.namespace in db`; 2 `self.namespace == self.DEFAULT_NAMESPACE and
+   len(db) == ADOPT_COUNT`; 0 otherwise.  results: 1 (db, db[self.namespace]);
+   2 (db, next(iter(db.values()))); 3 (db, key_map) after db[self.namespace] = key_map = {} *)
+Definition LOAD_SKELETON : list (Z * Z) := [(1, 1); (2, 2); (0, 3)].
+(* the operations: 1 `db, key_map = await self.load()`; 2 `await self.save(db)`;
+   10 key_map.setdefault(name, {}).update(keys.to_dict()); 11 del key_map[name];
+   12 key_map.clear(); 20 `if name not in key_map: return None`;
+   21 return PairingKeys.from_dict(key_map[name]);
+   22 return [(name, PairingKeys.from_dict(keys)) for (name, keys) in key_map.items()] *)
+Definition OPS_SKELETON : list (str * list Z) :=
+  [(S_ "update", [1; 10; 2]); (S_ "delete", [1; 11; 2]); (S_ "delete_all", [1; 12; 2]);
+   (S_ "get", [1; 20; 21]); (S_ "get_all", [1; 22])].
+(* json.dump(db, output, sort_keys=True, indent=4): (sort_keys, indent, ensure_ascii) *)
+Definition DUMP_ARGS : bool * Z * bool :=
+  (true, Z.of_nat INDENT, forallb (fun c => c <? 128) (esc_char 233)).
+Definition TMP_SUFFIX : str := S_ ".tmp".
